@@ -60,6 +60,9 @@ def dispatch_scenario(rng: random.Random, *, family=None, with_invalid=True, sto
             # the caller looks at the schedule being built (a Gantt chart of the live schedule, thrown away)
             lines.append("draw")
             lines.append("snap")
+        if peeks and rng.random() < 0.05:
+            lines.append("reseat")
+            lines.append("snap")
         if peeks and rng.random() < 0.06:
             # the caller annotates the dispatcher's schedule (a dict of its own) the way the library's solvers annotate their results
             lines.append("stamp")
